@@ -339,15 +339,15 @@ def rule_hab_dek(ctx, tainted) -> None:
                     return ordereval.NOT_MODELLED
                 try:
                     vals.append(bool(ordereval.Evaluator({}, None, call_value=cv).ev(ast.parse(text, mode="eval").body)))
-                except ordereval.Unsupported as ex:
-                    raise AnalysisError(f"C17.hab-dek: unrecognised reuse test `{text}`: {ex}")
-            if vals[0] == vals[1]:
-                raise AnalysisError(f"C17.hab-dek: reuse test `{text}` does not depend on the setting")
+                except ordereval.Unsupported:
+                    vals = []  # mentions the setting but is not a test OF the setting (e.g. a file look-up parametrised by it)
+                    break
+            if len(vals) != 2 or vals[0] == vals[1]:
+                continue
             return vals[0] == pol
         return None
     paths = [q for q in A.spaths(fn.node) if q.end == "return" and q.value is not None and not (isinstance(q.value, ast.Constant) and q.value.value is None)]
-    if not any(reuse_requested(q) is True for q in paths):
-        raise AnalysisError("C17.hab-dek: the reuse_dek decision was not found")
+    have_reuse = any(reuse_requested(q) is True for q in paths)
     bad, fresh = [], 0
     for q in paths:
         if reuse_requested(q) is True:
@@ -357,8 +357,39 @@ def rule_hab_dek(ctx, tainted) -> None:
             fresh += 1
         else:
             bad.append(q.vtext[:100])
+    if not bad and not have_reuse:
+        raise AnalysisError("C17.hab-dek: the reuse_dek decision was not found")
     ctx.chk.decide(not bad and fresh > 0, "C17.hab-dek", fn.qual + " (reuse not requested)", f"every key returned without a re-use request is an RNG draw ({fresh} path(s))",
                    f"a DEK that is not freshly drawn is returned although re-use was not requested: {bad[0] if bad else 'no RNG draw found'}", "random_bytes(key_length)", A.loc(rp, fn.node))
+
+
+def rule_config_redraws(ctx, tainted) -> None:
+    """C17.config-redraws: a class whose self-chosen secret is stored through a drawing setter (table row kind "setter") and that can be
+    configured again (`mix_load_from_config` / `load_from_config` as an instance method) stores the secret on EVERY completing path of
+    that method: a path that leaves it untouched keeps the secret of the previous configuration for the next image (same key, same
+    counter IV, different data)."""
+    n = 0
+    for rp, cn, attr, kind, _store in SECRETS:
+        if kind != "setter":
+            continue
+        k = ctx.cls(rp, cn)
+        for mname in ("mix_load_from_config", "load_from_config"):
+            for f in k.methods.get(mname, []):
+                if f.params()[:1] != ["self"]:
+                    continue
+                n += 1
+                ctx.chk.analysed(f.qual)
+                missing = None
+                for q in A.gpaths(f.node):
+                    if q.end not in ("fall", "return"):
+                        continue
+                    if not any(isinstance(st, (ast.Assign, ast.AnnAssign)) and any(norm(t) == f"self.{attr}" for t in (st.targets if isinstance(st, ast.Assign) else [st.target])) for st in q.stmts):
+                        missing = q
+                        break
+                ctx.chk.decide(missing is None, "C17.config-redraws", f.qual, f"every completing path stores self.{attr} (supplied value or a fresh draw through the setter)",
+                               f"a path ({' and '.join(('' if p_ else 'not ') + c for c, p_ in missing.conds) or 'unconditional'}) leaves self.{attr} as it was: a second configuration of the same object re-uses the previous secret" if missing is not None else "",
+                               f"self.{attr} = <configured value or None>", A.loc(rp, f.node))
+    ctx.chk.floor("C17.config-redraws", 1)
 
 
 def rule_routing(ctx, tainted) -> None:
@@ -429,6 +460,7 @@ def run(ctx) -> None:
     ctx.rule(rule_no_shared_cache, tainted)
     ctx.rule(rule_fresh_default, tainted)
     ctx.rule(rule_hab_dek, tainted)
+    ctx.rule(rule_config_redraws, tainted)
     ctx.rule(rule_routing, tainted)
     ctx.rule(rule_stable_getter, tainted)
     ctx.chk.assumptions = ["secrets/os.urandom are cryptographically strong and independent across calls and processes",
